@@ -369,6 +369,28 @@ def desc_normalised(ctx, obs, q: str, rule='DESC'):
                         f'`{norm(node)[:60]}`: `{v}` is read raw from a descriptor dict (documented as list-like) and '
                         f'{"indexed with a tuple / None" if tuple_nd else "indexed with a boolean array"}: a list-typed '
                         f'descriptor raises TypeError', where(prog, f, node))
+    # element-wise comparison / arithmetic between two slices of the raw value: `desc[:-1] <= desc[1:]` is ONE lexicographic
+    # comparison for a list (and `-` a TypeError); only an array compares element by element
+    def raw_slice(e):
+        if isinstance(e, ast.Subscript) and isinstance(e.value, ast.Name) and e.value.id in raw and isinstance(e.slice, ast.Slice):
+            ids = r.load_defs.get(id(e.value), frozenset())
+            return bool(ids) and all(r.defs[i].node is raw[e.value.id] for i in ids)
+        return False
+    for node in ast.walk(f.node):
+        pair = None
+        if isinstance(node, ast.Compare) and len(node.ops) == 1 and isinstance(node.ops[0], (ast.Lt, ast.LtE, ast.Gt, ast.GtE, ast.Eq, ast.NotEq)):
+            pair = (node.left, node.comparators[0])
+        elif isinstance(node, ast.BinOp) and isinstance(node.op, (ast.Sub, ast.Mult, ast.Div)):
+            pair = (node.left, node.right)
+        if pair and raw_slice(pair[0]) and raw_slice(pair[1]):
+            n += 1
+            v = pair[0].value.id
+            if (v, 'elementwise') in flagged:
+                continue
+            flagged.add((v, 'elementwise'))
+            obs.bad(rule, q, f'descriptor value `{v}` is converted to an array before element-wise comparison',
+                    f'`{norm(node)[:60]}`: `{v}` is read raw from a descriptor dict (documented as list-like); for a list the operator '
+                    f'compares the two slices as wholes (one lexicographic result), not element by element', where(prog, f, node))
     if not flagged:
         obs.ok(rule, q, 'descriptor values are normalised before ndarray-only operations', f'{len(raw)} raw descriptor reads')
     return n
@@ -434,4 +456,88 @@ def table_agreement(ctx, obs, writer_q: str, reader_q: str, rule='TAB', ignore: 
             obs.bad(rule, writer_q, f'key {k!r} read by {reader_q.split(".")[-1]} is written by {writer_q.split(".")[-1]}',
                     f'{reader_q} reads {k!r} which {writer_q} never writes: loading raises KeyError / loses the field',
                     where(prog, rf, read[k]))
+    return n
+
+
+def selection_consults_descriptor(ctx, obs, q: str, rule='SEL-DESC') -> int:
+    """subset / subsample `by` a descriptor: the positions selected are found by comparing the requested value(s) with the VALUES of
+    that descriptor.  Every definition of the selection variable (the one the descriptor dicts are extracted with) - in every arm
+    of the function - must read the descriptor values: directly, through a local bound to them, through a loop over them, or
+    under a condition on them.  A definition that derives the positions from the requested values alone (`by == 'index'`: "the
+    index descriptor numbers the items") is only right for objects that were never subset, reordered or concatenated."""
+    prog = ctx.prog
+    f = prog.func(q)
+    fn = f.node
+    # S: names the descriptor dicts are extracted with
+    sel = set()
+    for c in ast.walk(fn):
+        if isinstance(c, ast.Call) and _leaf(c.func) in ('extract_dict', 'subset_descriptor') and len(c.args) >= 2 and isinstance(c.args[1], ast.Name):
+            sel.add(c.args[1].id)
+    if not sel:
+        return 0
+
+    def is_desc_read(e) -> bool:
+        """self.<x>_descriptors[by] (any subscript of a descriptor dict of the object)"""
+        return isinstance(e, ast.Subscript) and isinstance(e.value, ast.Attribute) and e.value.attr.endswith('descriptors') \
+            and not isinstance(e.slice, ast.Constant)
+    tainted = set()
+    for _ in range(4):
+        for st in ast.walk(fn):
+            def mentions(e):
+                return any(is_desc_read(x) or (isinstance(x, ast.Name) and x.id in tainted) for x in ast.walk(e))
+            if isinstance(st, ast.Assign) and mentions(st.value):
+                for t in st.targets:
+                    for x in ast.walk(t):
+                        if isinstance(x, ast.Name) and x.id not in sel:
+                            tainted.add(x.id)
+            elif isinstance(st, (ast.For, ast.comprehension)) and mentions(st.iter):
+                for x in ast.walk(st.target):
+                    if isinstance(x, ast.Name):
+                        tainted.add(x.id)
+    parents = {}
+    for p in ast.walk(fn):
+        for ch in ast.iter_child_nodes(p):
+            parents[id(ch)] = p
+
+    def consults(st) -> bool:
+        def mentions(e):
+            return any(is_desc_read(x) or (isinstance(x, ast.Name) and x.id in tainted) for x in ast.walk(e))
+        if mentions(st):
+            return True
+        p = parents.get(id(st))
+        while p is not None and p is not fn:
+            if isinstance(p, (ast.If, ast.While)) and mentions(p.test):
+                return True
+            if isinstance(p, ast.For) and mentions(p.iter):
+                return True
+            p = parents.get(id(p))
+        return False
+    n = 0
+    for st in ast.walk(fn):
+        name = None
+        if isinstance(st, ast.Assign) and len(st.targets) == 1 and isinstance(st.targets[0], ast.Name) and st.targets[0].id in sel:
+            name, rhs = st.targets[0].id, st.value
+            if isinstance(rhs, (ast.List, ast.Tuple)) and not rhs.elts:
+                continue            # empty initialisation
+            if any(isinstance(x, ast.Name) and x.id == name for x in ast.walk(rhs)):
+                continue            # a transformation of the selection itself (np.array(selection), np.sort(selection))
+        elif isinstance(st, ast.Expr) and isinstance(st.value, ast.Call) and isinstance(st.value.func, ast.Attribute) \
+                and st.value.func.attr in ('append', 'extend') and isinstance(st.value.func.value, ast.Name) and st.value.func.value.id in sel:
+            name = st.value.func.value.id
+        if name is None:
+            continue
+        n += 1
+        con = f'`{norm(st)[:60]}`: the positions selected are found from the values of the descriptor'
+        opaque = [x for x in ast.walk(st) if isinstance(x, ast.Call) and (
+            (isinstance(x.func, ast.Name) and x.func.id == 'getattr') or
+            any(isinstance(a, ast.Name) and a.id in (f.pos_params[:1] or ['self']) for a in x.args))]
+        if consults(st):
+            obs.ok(rule, q, con, '', where(prog, f, st))
+        elif opaque:
+            obs.unk(rule, q, con, f'`{norm(opaque[0])[:60]}` may read the descriptor (dynamic attribute / the object is handed to a helper)',
+                    where(prog, f, st))
+        else:
+            obs.bad(rule, q, con, f'`{norm(st)[:90]}` derives the positions from the requested value(s) without reading the descriptor: for an '
+                    f'object whose descriptor values are not 0..n-1 in order (any subset, reordered or concatenated object) other items '
+                    f'are selected than the ones asked for', where(prog, f, st))
     return n
